@@ -543,12 +543,14 @@ static int push_args(Node *node) {
         arg->pass_by_stack = true;
         stack += align_to(ty->size, 8) / 8;
       } else {
+        bool two = ty->size > 8;
         bool fp1 = has_flonum1(ty);
-        bool fp2 = has_flonum2(ty);
+        bool fp2 = two && has_flonum2(ty);
+        bool gp2 = two && !has_flonum2(ty);
 
-        if (fp + fp1 + fp2 < FP_MAX && gp + !fp1 + !fp2 < GP_MAX) {
+        if (fp + fp1 + fp2 <= FP_MAX && gp + !fp1 + gp2 <= GP_MAX) {
           fp = fp + fp1 + fp2;
-          gp = gp + !fp1 + !fp2;
+          gp = gp + !fp1 + gp2;
         } else {
           arg->pass_by_stack = true;
           stack += align_to(ty->size, 8) / 8;
@@ -925,6 +927,8 @@ static void gen_expr(Node *node) {
 
     for (Node *arg = node->args; arg; arg = arg->next) {
       Type *ty = arg->ty;
+      if (arg->pass_by_stack)
+        continue;
 
       switch (ty->kind) {
       case TY_STRUCT:
@@ -935,18 +939,16 @@ static void gen_expr(Node *node) {
         bool fp1 = has_flonum1(ty);
         bool fp2 = has_flonum2(ty);
 
-        if (fp + fp1 + fp2 < FP_MAX && gp + !fp1 + !fp2 < GP_MAX) {
-          if (fp1)
+        if (fp1)
+          popf(fp++);
+        else
+          pop(argreg64[gp++]);
+
+        if (ty->size > 8) {
+          if (fp2)
             popf(fp++);
           else
             pop(argreg64[gp++]);
-
-          if (ty->size > 8) {
-            if (fp2)
-              popf(fp++);
-            else
-              pop(argreg64[gp++]);
-          }
         }
         break;
       case TY_FLOAT:
@@ -1370,11 +1372,13 @@ static void assign_lvar_offsets(Obj *prog) {
       case TY_STRUCT:
       case TY_UNION:
         if (ty->size <= 16) {
+          bool two = ty->size > 8;
           bool fp1 = has_flonum(ty, 0, 8, 0);
-          bool fp2 = has_flonum(ty, 8, 16, 8);
-          if (fp + fp1 + fp2 < FP_MAX && gp + !fp1 + !fp2 < GP_MAX) {
+          bool fp2 = two && has_flonum(ty, 8, 16, 0);
+          bool gp2 = two && !has_flonum(ty, 8, 16, 0);
+          if (fp + fp1 + fp2 <= FP_MAX && gp + !fp1 + gp2 <= GP_MAX) {
             fp = fp + fp1 + fp2;
-            gp = gp + !fp1 + !fp2;
+            gp = gp + !fp1 + gp2;
             continue;
           }
         }
